@@ -285,7 +285,7 @@ def r6(run):
             for i, a in enumerate(c.args):
                 if "move" in a and not a["move"]["p"]:
                     l = a["move"]["l"]
-                    if main.types.s(main.local_ty(l)) == STRONG and c.fn not in (C.TOKIO_SPAWN,) + C.THREAD_SPAWNS:
+                    if main.types.s(main.local_ty(l)) == STRONG and c.fn not in (C.TOKIO_SPAWN, "core::mem::drop") + C.THREAD_SPAWNS:
                         tx_moves.append((c.fn, c.sp))
         run.ob("%s|read-body|sender-not-leaked" % C.READ, not tx_moves, main.sp, "the read body hands strong senders only to the history / live launches (%s)" % tx_moves,
                reason="stream-outlives-live-task")
